@@ -5,6 +5,9 @@ import PoxModel.Model.Match
 * `FlowTable.add_entry` (`:224-247`): the binary search as written, then `list.insert`  → `insertPos?`, `addEntry?`, `addEntry`
 * `FlowTable.entry_for_packet` (`:313-327`): first entry, in table order, whose match accepts the packet's match with
   `consider_other_wildcards=False`  → `entryForPacket`, `entryIdxForPacket`
+* `FlowTable.remove_entry` (`:249-253`), `matching_entries` / `TableEntry.is_matched_by` (`:85-100,255-257`),
+  `remove_matching_entries` (`:307-311`), `remove_expired_entries` / `_remove_specific_entries` (`:276-305`)
+  → `TableOps.Op`, `TableOps.step`, `TableOps.run` (the table under every sequence of its mutating operations)
 
 `table[middle]` is a partial operation in Python (IndexError); the search is therefore modelled as `Option`
 (`insertPos?`), and `Proofs/FlowTable.lean` proves it is never `none` (`addEntry?_eq_some`).  An entry carries an arbitrary
@@ -65,5 +68,46 @@ def entryForPacket (tbl : Table α) (p : PHdr) (inPort : Nat) : Option (Entry α
 def entryIdxForPacket (tbl : Table α) (p : PHdr) (inPort : Nat) : Option Nat :=
   let i := tbl.findIdx (Entry.accepts (fromPacket p inPort))
   if i < tbl.length then some i else none
+
+/-! ## every mutating operation of `FlowTable` -/
+namespace TableOps
+
+/-- `e.is_matched_by(match, priority, strict, out_port)`; `portOk` stands for `out_port is None or any(output to out_port)` -/
+def selectedBy (m : OfMatch) (priority : Nat) (strict : Bool) (portOk : α → Bool) (e : Entry α) : Bool :=
+  portOk e.data && (if strict then e.mtch.eqMatch m && e.priority == priority else m.matchesWith true e.mtch)
+
+/-- one call on a `FlowTable` -/
+inductive Op (α : Type) where
+  /-- `add_entry(e)` -/
+  | add (e : Entry α)
+  /-- `remove_entry(x)` where `x` is the object at position `i` of the table; `i ≥ len` stands for an object that is not in the
+      table (`list.remove` raises `ValueError`, the table is unchanged) -/
+  | removeAt (i : Nat)
+  /-- `remove_matching_entries(match, priority, strict, out_port)` -/
+  | removeMatching (m : OfMatch) (priority : Nat) (strict : Bool) (portOk : α → Bool)
+  /-- `remove_expired_entries(now)`: `dead e` = `e.is_idle_timed_out(now) or e.is_hard_timed_out(now)` (any function of the
+      entry: the table does not care how expiry is decided); `_remove_specific_entries` deletes exactly those, in place -/
+  | expire (dead : Entry α → Bool)
+
+/-- the table after the call, and whether the call raised -/
+def step (tbl : Table α) : Op α → Table α × Bool
+  | .add e => (match addEntry? e tbl with
+      | some t => (t, false)
+      | none => (tbl, true))                                   -- IndexError (never happens: `addEntry?_eq_some`)
+  | .removeAt i => if i < tbl.length then (tbl.eraseIdx i, false) else (tbl, true)    -- ValueError
+  | .removeMatching m pr strict portOk => (tbl.filter (fun e => !selectedBy m pr strict portOk e), false)
+  | .expire dead => (tbl.filter (fun e => !dead e), false)
+
+/-- the table after a sequence of calls on an empty `FlowTable` (calls that raise leave it unchanged) -/
+def runFrom (tbl : Table α) (ops : List (Op α)) : Table α := ops.foldl (fun t op => (step t op).1) tbl
+def run (ops : List (Op α)) : Table α := runFrom [] ops
+
+/-- the entries handed to `add_entry` in a history -/
+def added : List (Op α) → List (Entry α)
+  | [] => []
+  | .add e :: r => e :: added r
+  | _ :: r => added r
+
+end TableOps
 
 end Pox.OF
